@@ -266,6 +266,30 @@ def run(ctx):
                       'range bounds are not linear expressions', call.file, call.line, config=config)
                 continue
             if not hdr:
+                # the header offset handed in as a parameter: followed to every caller's argument
+                pints = [p_.op for p_ in ra.params if not (p_.t or '').rstrip().endswith('*')]
+                extra_p = [k_ for k_ in st.t if k_ in pints]
+                if len(extra_p) == 1 and st == Lin({'chk->start': 1, extra_p[0]: 1}):
+                    pidx = [i_ for i_, p_ in enumerate(ra.params) if p_.op == extra_p[0]][0]
+                    okp, whatp, wherep = True, [], call
+                    for cf_, c_ in prog.callers().get(ra.qname, []):
+                        v_ = lin(c_.a[1 + pidx], unique_defs(cf_)) if 1 + pidx < len(c_.a) else None
+                        good_ = v_ is not None and (v_ == Lin({HL: 1}) or v_ == Lin({'zck->lead_size': 1, 'zck->header_length': 1})
+                                                    or (v_.is_const() and v_.c == 0))
+                        whatp.append('%s: %r' % (cf_.name, v_))
+                        if not good_:
+                            okp, wherep = False, c_
+                    key = (repr(st), repr(en), call.line)
+                    if key not in seen:
+                        seen.add(key)
+                        oke = en == st + Lin({'chk->comp_length': 1}, -1) and src == 'chk'
+                        ck.ob('C10-b', 'R4.extent', ra.name, 'insert@%d' % call.line, okp and oke,
+                              'range [%r, %r] for chunk %s with the header offset passed in by the callers (%s)' % (
+                                  st, en, src, '; '.join(whatp)) if okp and oke else
+                              'range [%r, %r]: the offset %s is passed as %s - expected the header length announced in the '
+                              'lead (zck_get_header_length() = lead_size + header_length): a header with unused bytes at its '
+                              'end shifts every requested range into the preceding chunk' % (st, en, extra_p[0], '; '.join(whatp)),
+                              wherep.file, wherep.line, config=config)
                 continue   # zck == NULL: caller supplies absolute offsets (zck_get_range)
             key = (repr(st), repr(en), call.line)
             if key in seen:
